@@ -9,7 +9,7 @@ k, j = idx % check.NSHARDS, idx // check.NSHARDS
 src = open(os.path.join(work, "shard_%d.v" % k), encoding="utf-8").read()
 head = src[:src.index("Definition c0 ")]
 m = re.search(r"^Definition c%d : .*?$" % j, src, re.M)
-out = head + m.group(0) + "\nDefinition c := c%d.\n" % j
+out = head + "From V Require Import Checkers.Parse Checkers.Sem Model.TypePath Model.Generate Model.Emit Model.Equal Model.Derives.\n" + m.group(0) + "\nDefinition c := c%d.\n" % j
 for e in sys.argv[3:]:
     out += "Eval vm_compute in (%s).\n" % e
 p = os.path.join(work, "one.v")
